@@ -25,7 +25,7 @@ import xml.etree.ElementTree as ET  # noqa: S405  (bundled, trusted schema files
 from engine.cfg import call_name
 from engine.errors import AnalysisError
 from engine.repo import walk_no_nested
-from engine.util import calls_in, unparse
+from engine.util import calls_in, unparse, xsrc
 
 ID = 'C05'
 XS = '{http://www.w3.org/2001/XMLSchema}'
@@ -318,7 +318,7 @@ def run(ctx):  # noqa: C901, PLR0912, PLR0915
                              'self-updating clock time is excluded from the round trip by the property); not paired')
             continue
         n_w += 1
-        wsrc, rsrc = unparse(wr.node), unparse(rd.node)
+        wsrc, rsrc = xsrc(wr), unparse(rd.node)
         # location agreement
         loc_w = {x for x in ('_attribute_name', '_sub_element_name') if f'self.{x}' in wsrc}
         loc_r = {x for x in ('_attribute_name', '_sub_element_name') if f'self.{x}' in rsrc}
